@@ -41,7 +41,7 @@ impl Runner {
             } else {
                 None
             },
-            c09: if prop == "C09" || prop == "C08" {
+            c09: if prop == "C09" || prop == "C08" || prop == "C11" || prop == "C12" {
                 Some(props::c09::W { work: libwork::Work::load() })
             } else {
                 None
@@ -55,6 +55,7 @@ impl Runner {
             "C05" => props::c05::n_items(ctx),
             "C09" => props::c09::n_items(self.c09.as_ref().unwrap(), ctx),
             "C08" => props::c08::n_items(self.c09.as_ref().unwrap(), ctx),
+            "C11" => props::c11::n_items(&self.c09.as_ref().unwrap().work, ctx),
             _ => 0,
         }
     }
@@ -65,6 +66,7 @@ impl Runner {
             "C05" => props::c05::run_item(ctx, i),
             "C09" => props::c09::run_item(self.c09.as_ref().unwrap(), ctx, i),
             "C08" => props::c08::run_item(self.c09.as_ref().unwrap(), ctx, i),
+            "C11" => props::c11::run_item(&self.c09.as_ref().unwrap().work, ctx, i),
             _ => {}
         }
     }
@@ -161,6 +163,8 @@ fn replay(args: &[String]) -> i32 {
                     props::c09::replay(&mut ctx, &case);
                 } else if prop == "C08" {
                     props::c08::replay(&mut ctx, &case);
+                } else if prop == "C11" {
+                    props::c11::replay(&mut ctx, &case);
                 }
                 println!("{}", serde_json::to_string_pretty(&json!({"findings": ctx.findings, "evaluations": ctx.evals})).unwrap());
                 if ctx.findings.is_empty() { 0 } else { 1 }
